@@ -8,7 +8,7 @@ import tempfile
 from .repo import roberta_generator as G, stochastic_game_from_roborta_board as SG
 
 NAME_RE = re.compile(r"^robot_(\d+)_w(\d+)_l(\d+)_r(\d+)_rb(\d+)_lb(\d+)_tb(\d+)_lt(\d+)(_force_down)?\.py$")
-MANUAL_RE = re.compile(r"^manual_robot_w(\d+)_l(\d+)_r(\d+)_rb(\d+)_lb(\d+)_tb(\d+)_(force_down)?\.py$")
+MANUAL_RE = re.compile(r"^manual_robot_w(\d+)_l(\d+)_r(\d+(?:\.\d+)?)_rb(\d+)_lb(\d+)_tb(\d+)_(force_down)?\.py$")
 
 
 class Scratch:
